@@ -195,7 +195,24 @@ func seqStream(c *run.Ctx, r *kit.Rng, s *kit.Summary, count int) {
 		var o, im string
 		var cl [][]hdrRow
 		if p, msg := kit.Recover(func() { o, im, cl = runHistory(h) }); p {
-			s.Violate(kit.Violation{Kind: "metrics_panic", What: "a call sequence panicked: " + msg, Input: map[string]interface{}{"history": h}})
+			// inside the property's domain (non-negative latencies, nothing asked of an empty Metrics) a panic
+			// means nothing is reported at all; outside of it the model merely says "no panic"
+			inDomain, seenAdd := true, false
+			for _, x := range h {
+				if x.Kind == "add" {
+					seenAdd = true
+					if x.Lat < 0 {
+						inDomain = false
+					}
+				} else if !seenAdd {
+					inDomain = false
+				}
+			}
+			if inDomain {
+				s.Violate(kit.Violation{Kind: "metrics_panic", What: "a call sequence panicked: " + msg, Input: map[string]interface{}{"history": h}})
+			} else {
+				s.Diverge("c11.seq", fmt.Sprint(h), "panic: "+msg, "the model runs every call sequence to completion")
+			}
 			continue
 		}
 		ops, impls, cells, hist = append(ops, o), append(impls, im), append(cells, cl), append(hist, h)
